@@ -17,6 +17,7 @@ RULE = ("a real RF24Mesh master and 1..12 RF24MeshNoMaster/RF24Mesh joiners with
         "no-exception, termination and valid-or-None. The C16 table invariant is evaluated on the "
         "master after every update(). Non-trivial: >=1 lease granted or refused; distinct = "
         "(joiner count, relay use, profile class, medium, script shape).")
+RULE += (" Later rounds added: deep narrow trees joined through level-2/3 relays, timeouts sized to the joiner count, a quiet network before every turn, origin stamp of frames the master originates, injected late duplicate requests, master-expired leases, send to the own ID, the master's trivial answers, an orphaned child, concurrent lookups (an answer is the mapping or -1), block_less_callback.")
 REQUIRED = {"join_result": 60, "address_distinct_and_recorded": 25, "lookup_codes": 150,
             "mesh_send_arrives": 30, "release_and_rejoin": 15, "check_connection": 60,
             "master_table_invariant": 2000}
